@@ -40,12 +40,16 @@ impl ConfigDatabase {
     }
 
     pub fn set(&mut self, key: String, value: String) -> Result<(), Box<dyn Error>> {
+        #[cfg(brc20_prog_verif)]
+        crate::verif::fp("cfg.put");
         self.db.put(&key.encode_vec(), &value.encode_vec())?;
         self.cache.insert(key, value);
         Ok(())
     }
 
     pub fn flush(&self) -> Result<(), Box<dyn Error>> {
+        #[cfg(brc20_prog_verif)]
+        crate::verif::fp("cfg.flush");
         self.db.flush().map_err(|e| e.into())
     }
 
